@@ -249,7 +249,7 @@ func c18model(c *Ctx, rule string) {
 func (m *c18m) boundsModel(rule string, check *types.Func) {
 	c := m.c
 	kb := c.P.Func("encoding/osm", "KeepBounds")
-	pn, pw, pr := c.P.Method("encoding/osm", "Data", "processNode"), c.P.Method("encoding/osm", "Data", "processWay"), c.P.Method("encoding/osm", "Data", "processRelation")
+	pn, pw, pr := m.perObject("processNode", m.xNodeT), m.perObject("processWay", m.xWayT), m.perObject("processRelation", m.xRelT)
 	cm := newClipModel(c)
 	if c.P.Decl(kb) == nil || c.P.Decl(pn) == nil || c.P.Decl(pw) == nil || c.P.Decl(pr) == nil || cm.bt == nil || cm.ptT == nil {
 		return // the by-tag pass model reports missing anchors
@@ -652,7 +652,7 @@ func (m *c18m) filterModel(rule string, filter, check *types.Func, keepTags, kee
 // passModel drives processNode / processWay / processRelation through the pass protocol.
 func (m *c18m) passModel(rule string, check *types.Func, keepTags oval) {
 	c := m.c
-	pn, pw, pr := c.P.Method("encoding/osm", "Data", "processNode"), c.P.Method("encoding/osm", "Data", "processWay"), c.P.Method("encoding/osm", "Data", "processRelation")
+	pn, pw, pr := m.perObject("processNode", m.xNodeT), m.perObject("processWay", m.xWayT), m.perObject("processRelation", m.xRelT)
 	if c.P.Decl(pn) == nil || c.P.Decl(pw) == nil || c.P.Decl(pr) == nil || m.xNodeT == nil || m.xWayT == nil || m.xRelT == nil {
 		c.Unk(rule, "encoding/osm#passes", token.NoPos, "the per-object functions processNode / processWay / processRelation (or the element types they take) do not resolve")
 		return
@@ -769,6 +769,28 @@ func (m *c18m) passModel(rule string, check *types.Func, keepTags oval) {
 			return p
 		}},
 	}
+	if c.Thorough {
+		// twelve more orders of the objects (a fixed pseudo-random sequence)
+		for seed := uint64(1); seed <= 12; seed++ {
+			sd := seed
+			orders = append(orders, struct {
+				name string
+				perm func(n int) []int
+			}{fmt.Sprintf("shuffled order %d", seed), func(n int) []int {
+				p := make([]int, n)
+				for i := range p {
+					p[i] = i
+				}
+				x := sd*6364136223846793005 + 1442695040888963407
+				for i := n - 1; i > 0; i-- {
+					x = x*6364136223846793005 + 1442695040888963407
+					j := int((x >> 33) % uint64(i+1))
+					p[i], p[j] = p[j], p[i]
+				}
+				return p
+			}})
+		}
+	}
 	for _, d := range osmDocs() {
 		cons := fmt.Sprintf("encoding/osm#passes(%s)", d.name)
 		bad, unk := "", ""
@@ -844,7 +866,7 @@ func (m *c18m) passModel(rule string, check *types.Func, keepTags oval) {
 				}
 			}
 		}
-		report3(c, rule, cons, pos, bad, unk, "the least closed set, in file order, reverse order and an interleaved order of the objects; Check accepts it")
+		report3(c, rule, cons, pos, bad, unk, fmt.Sprintf("the least closed set in %d orders of the objects (file order, reverse, interleaved …); Check accepts it", len(orders)))
 	}
 }
 
@@ -866,4 +888,33 @@ func (it *oInterp) constVal(v constant.Value, t types.Type) oval {
 func (it *oInterp) sliceOfVals(t types.Type, elems []oval) oSlice {
 	arr := append([]oval{}, elems...)
 	return oSlice{typ: t, arr: &arr, lo: 0, hi: len(arr), capEnd: len(arr)}
+}
+
+// perObject finds the function the workers call for one kind of element: by its name, else a
+// method of Data whose first parameter is a pointer to that element type of the element library
+// and which takes a keep function.
+func (m *c18m) perObject(name string, elem types.Type) *types.Func {
+	c := m.c
+	if f := c.P.Method("encoding/osm", "Data", name); f != nil && c.P.Decl(f) != nil {
+		return f
+	}
+	if elem == nil {
+		return nil
+	}
+	for _, f := range c.P.RepoFuncs() {
+		sig := f.Type().(*types.Signature)
+		if sig.Recv() == nil || named(sig.Recv().Type()) != m.dataT || sig.Params().Len() < 2 || c.P.Decl(f) == nil {
+			continue
+		}
+		pt, ok := sig.Params().At(0).Type().(*types.Pointer)
+		if !ok || !types.Identical(pt.Elem(), elem) {
+			continue
+		}
+		for i := 1; i < sig.Params().Len(); i++ {
+			if isNamed(sig.Params().At(i).Type(), "github.com/ctessum/geom/encoding/osm", "KeepFunc") {
+				return f
+			}
+		}
+	}
+	return nil
 }
